@@ -4,7 +4,7 @@ import numpy as np
 from hypothesis import strategies as st
 
 from vlib import drexcase, gen, ref_drex
-from vlib.harness import Oracle, Skip, require
+from vlib.harness import Oracle, Skip, Violation, require
 
 RULE = (
     "Cases as for C02 (6 phase/fabric pairs, both dislocation-type regimes, all texture "
@@ -12,7 +12,12 @@ RULE = (
     "0.1..10 and the zero gradient) plus a degenerate family built to defeat slip: "
     "every grain an axis-aligned rotation (or within 1e-2..1e-16 rad of one) under "
     "axis-aligned simple/pure shear and axisymmetric flows, volumes with exact zeros "
-    "and one dominant grain, M*=0, and (thorough) 1e3..1e5 grains. Non-trivial: >=3 "
+    "and one dominant grain, M*=0, and (thorough) 1e3..1e5 grains; any of these optionally "
+    "re-expressed in a rotated reference frame (so that aligned grains yield slip invariants "
+    "that are rounding residues). Oracle degenerate_grid enumerates a finite family "
+    "exhaustively per generated fabric/regime/parameter set: 24 axis-aligned grains x 64 "
+    "frames rotated by multiples of 90 degrees built from Euler angles (entries ~6e-17 "
+    "instead of exact zeros) x 18 axis-aligned flows x 3 scales = 82944 solver calls. Non-trivial: >=3 "
     "grains with pairwise distinct strain energies (reference model), or a grain with "
     "zero volume, or a grain on which no slip system resolves (max activity<1e-9); "
     "distinct = distinct canonical JSON of the generated case."
@@ -26,6 +31,7 @@ ASSUMPTIONS = [
 def degenerate_case():
     aligned = st.one_of(
         st.fixed_dictionaries({"k": st.just("ax"), "i": st.integers(0, 23)}),
+        st.fixed_dictionaries({"k": st.just("e90"), "a": st.lists(st.integers(0, 3), min_size=3, max_size=3)}),
         st.fixed_dictionaries(
             {
                 "k": st.just("near"),
@@ -43,7 +49,10 @@ def degenerate_case():
             "L": st.fixed_dictionaries(
                 {
                     "fam": st.sampled_from(["simple", "pure", "axi_c", "axi_e", "general"]),
-                    "Q": st.fixed_dictionaries({"k": st.just("ax"), "i": st.integers(0, 23)}),
+                    "Q": st.one_of(
+                        st.fixed_dictionaries({"k": st.just("ax"), "i": st.integers(0, 23)}),
+                        st.fixed_dictionaries({"k": st.just("e90"), "a": st.lists(st.integers(0, 3), min_size=3, max_size=3)}),
+                    ),
                     "a": st.sampled_from([-1.0, 0.0, 1.0]),
                     "w": st.lists(st.sampled_from([0.0, 1.0, -2.0]), min_size=3, max_size=3),
                     "raw": st.just([0.0] * 9),
@@ -56,8 +65,15 @@ def degenerate_case():
 
 
 def scaled_case(max_n=24):
+    # "frame": the whole problem (orientations and flow) re-expressed in a rotated reference
+    # frame, so that grains aligned with the flow keep their alignment but the slip invariants
+    # become rounding residues (some exactly 0, some ~1e-17) instead of exact zeros
     return st.fixed_dictionaries(
-        {"base": st.one_of(drexcase.rate_case(max_n, 8), degenerate_case()), "scale": st.sampled_from([1.0, 1.0, 0.1, 10.0, 0.0])}
+        {
+            "base": st.one_of(drexcase.rate_case(max_n, 8), degenerate_case()),
+            "scale": st.sampled_from([1.0, 1.0, 0.1, 10.0, 0.0]),
+            "frame": st.one_of(st.none(), gen.rotation_spec(), st.fixed_dictionaries({"k": st.just("e90"), "a": st.lists(st.integers(0, 3), min_size=3, max_size=3)})),
+        }
     )
 
 
@@ -76,6 +92,12 @@ def expand(case):
     s = case["scale"]
     x["L"] = x["L"] * s
     x["D"] = x["D"] * s
+    if case.get("frame") is not None:
+        Q = gen.rot(case["frame"])
+        x["A"] = x["A"] @ Q.T
+        x["L"] = Q @ x["L"] @ Q.T
+        D = Q @ x["D"] @ Q.T
+        x["D"] = (D + D.T) / 2
     return x
 
 
@@ -155,7 +177,7 @@ def check_linearity(case):
 def check_pair_decomposition(case):
     """(e)+(f): N-grain volume rates equal phi*M*f_i*sum_j f_j (E_j-E_i) with the energy
     differences read off two-grain calls of the solver; growth sign follows."""
-    x = expand({"base": case["base"], "scale": 1.0})
+    x = expand({"base": case["base"], "scale": 1.0, "frame": None})
     n = len(x["A"])
     if n < 2 or n > 10:
         raise Skip("grain count outside 2..10")
@@ -199,6 +221,70 @@ def check_pair_decomposition(case):
         "labels": [x["fname"], f"n{n}"],
         "residual": err / (1 + M),
     }
+
+
+_GRID_FLOWS = None
+
+
+def _grid_flows():
+    """Axis-aligned flows (unit max strain rate): simple shears in the three planes, pure
+    shears, axisymmetric compression/extension, each also with a vorticity component."""
+    global _GRID_FLOWS
+    if _GRID_FLOWS is None:
+        flows = []
+        for i in range(3):
+            for j in range(3):
+                if i != j:
+                    L = np.zeros((3, 3))
+                    L[i, j] = 2.0
+                    flows.append(L)
+        for d in ([1.0, -1.0, 0.0], [0.0, 1.0, -1.0], [-1.0, 0.0, 1.0], [0.5, 0.5, -1.0], [-0.5, -0.5, 1.0], [1.0, -0.5, -0.5]):
+            flows.append(np.diag(d))
+            W = np.array([[0.0, -1.0, 0.0], [1.0, 0.0, 0.0], [0.0, 0.0, 0.0]])
+            flows.append(np.diag(d) + W)
+        _GRID_FLOWS = flows
+    return _GRID_FLOWS
+
+
+def check_degenerate_grid(case):
+    """Finite enumeration: every axis-aligned grain (24) x every frame rotation by multiples of
+    90 degrees built from Euler angles with floating-point residues (64) x 18 axis-aligned
+    flows x 3 scales, for one generated fabric/regime/parameter set: single-grain solver calls
+    must return finite, skew, zero-volume-rate results without raising."""
+    phase, fabric, fname = gen.FABRICS[case["pf"]]
+    n_calls = 0
+    worst = 0.0
+    frames = [gen._euler90([a, b, c]) for a in range(4) for b in range(4) for c in range(4)]
+    from pydrex import core as _core
+
+    for A0 in gen.AXIS24:
+        for Q in frames:
+            A = np.ascontiguousarray((A0 @ Q.T)[None])
+            for L0 in _grid_flows():
+                Lr = Q @ L0 @ Q.T
+                for sc in (1.0, 0.1, 10.0):
+                    L = Lr * sc
+                    D = (L + L.T) / 2
+                    try:
+                        Adot, fdot = _core.derivatives(
+                            regime=case["regime"], phase=phase, fabric=fabric, n_grains=1, orientations=A,
+                            fractions=np.ones(1), strain_rate=D, velocity_gradient=L,
+                            deformation_gradient_spin=np.zeros((3, 3)), stress_exponent=case["p"],
+                            deformation_exponent=case["n"], nucleation_efficiency=case["lam"], gbm_mobility=125.0, volume_fraction=1.0,
+                        )
+                    except Exception as e:  # noqa: BLE001
+                        raise Violation(f"derivatives raised {type(e).__name__}: {e} ({fname}, aligned grain in a frame rotated by multiples of 90 degrees)")
+                    n_calls += 1
+                    if not (np.all(np.isfinite(Adot)) and np.all(np.isfinite(fdot))):
+                        raise Violation(f"non-finite rates for an aligned {fname} grain in a frame rotated by multiples of 90 degrees (scale {sc})")
+                    S = A[0].T @ Adot[0]
+                    sk = float(np.abs(S + S.T).max())
+                    if sk > 1e-12 * max(1.0, np.abs(L).max()):
+                        raise Violation(f"orientation rate is not A.(skew spin): {sk:.3e} ({fname})", sk)
+                    worst = max(worst, sk)
+                    if fdot[0] != 0.0:
+                        raise Violation(f"single grain with all the volume has volume rate {fdot[0]!r}")
+    return {"nontrivial": True, "labels": [fname, f"calls{n_calls}"], "residual": worst}
 
 
 def big_case():
@@ -250,4 +336,20 @@ ORACLES = [
         thorough=4000,
     ),
     Oracle("manifold_large", big_case(), check_manifold, classify=classify, quick=3, thorough=12),
+    Oracle(
+        "degenerate_grid",
+        st.fixed_dictionaries(
+            {
+                "pf": st.integers(0, 5),
+                "regime": st.sampled_from([4, 6]),
+                "p": st.sampled_from([1.0, 1.5, 2.0]),
+                "n": st.sampled_from([2.0, 3.5, 5.0]),
+                "lam": st.sampled_from([0.0, 5.0]),
+            }
+        ),
+        check_degenerate_grid,
+        classify=lambda c: gen.FABRICS[c["pf"]][2],
+        quick=6,
+        thorough=6,
+    ),
 ]
